@@ -286,6 +286,43 @@ pub fn run(ctx: &Ctx) {
         }
         ctx.class_n("long search patterns of multi-byte characters, typed and erased", cases.len() as u64);
     }
+    // what people actually type into the search box: addresses, call signs, registrations, type codes, receiver names,
+    // regular expressions — character by character, then a navigation key (still in search mode), Enter, and a key that
+    // only means something outside search mode. A handler that reacts to the *content* of the pattern (a complete
+    // address, a complete call sign) shows here and nowhere in an exploration that abstracts the pattern to its length.
+    {
+        let words = [
+            "4", "48", "484", "4840", "4840d", "4840d6", "4840d6a", "4840D6", "acfacf", "ffffff", "000000", "abcdef", "ABCDEF", "a0b1c2d3", "~4840d6", "39c424", "3c6444", "06a12f", "deadbeef", "AFR1234", "AFR123", "EZY85MH", "KLM", "RYR4TK", "N123AB", "F-GKXS", "D-AIMA", "G-EZBI", "HL7200", "A320", "B738", "A20N", "LFBO", "toulouse", "7700", "7500",
+            "1200", "^48", "40..d6", "[a-f0-9]{6}", "(", "a|b", ".*", "\\d+", "q", "qqqqqq", "jjkkgg", "acv.fl", "------", "//////", "      ",
+        ];
+        let cases: Vec<Vec<Ev>> = words
+            .iter()
+            .flat_map(|w| {
+                let typed: Vec<Ev> = w.chars().map(|c| Ev::Key(c.to_string())).collect();
+                let mut a = vec![Ev::Key("/".into())];
+                a.extend(typed.clone());
+                a.extend(["Down", "Up", "Enter", "j", "q"].map(|k| Ev::Key(k.into())));
+                // the same word typed, erased by one, completed again, left with Esc
+                let mut b = vec![Ev::Key("a".into()), Ev::Key("/".into())];
+                b.extend(typed.clone());
+                b.push(Ev::Key("Backspace".into()));
+                b.extend(typed.last().cloned());
+                b.extend(["Home", "Esc", "-", "/"].map(|k| Ev::Key(k.into())));
+                b.extend(typed);
+                b.push(Ev::Key("Enter".into()));
+                [a, b]
+            })
+            .collect();
+        let mut fails: Vec<Failure> = cases.par_iter().enumerate().filter_map(|(i, seq)| check_seq(ctx, &pool, [3usize, 0, 1, 7][i % 4], seq, true).err()).collect();
+        fails.sort_by(|a, b| a.signature.cmp(&b.signature).then(a.detail.len().cmp(&b.detail.len())));
+        let mut seen = std::collections::BTreeSet::new();
+        for f in fails {
+            if seen.insert(f.signature.clone()) {
+                ctx.judge(Err(f));
+            }
+        }
+        ctx.class_n("search patterns people type (addresses, call signs, registrations, regular expressions), then navigation / Enter / Esc", cases.len() as u64);
+    }
     // larger tables ("any number of aircraft"): every navigation key held down until the selection has gone round the
     // table, from the first row, from the last row and from the middle
     {
